@@ -8,7 +8,7 @@ BIN = "h_world"
 # Per property: monitor tags that decide it, op kinds whose results form its projection of the
 # transcript (a model/implementation DIFF on another op kind is somebody else's business).
 PROBE_OPS = {"alive", "walive", "ejoin", "mask", "events"}   # printed by the harness after every mutating op anyway
-OP_ALIAS = {"gget": "get", "ggetmut": "getmut", "gins": "ins", "grem": "rem", "lget": "get", "lgetmut": "getmut"}   # same model ops
+OP_ALIAS = {"gget": "get", "ggetmut": "getmut", "gins": "ins", "grem": "rem", "lget": "get", "lgetmut": "getmut", "ldrain2": "rem"}   # same model ops
 STORE_OPS = ["get", "getmut", "has", "ins", "rem", "entry_or", "entry_rep", "entry_rem", "mut_or_default"]
 PROPS = {
     "C01": {"mon": ["C01"], "proj": ["create", "create_iter", "createw", "lazy_create"], "kind": "ent",
@@ -76,6 +76,12 @@ def plan(prop, tier, seed):
                 runs.append((f"sgen-{f}-{i}", ["sgen", str(seed * 1000 + i), "900" if f in ("fault", "faultchurn") else "350", "120" if f in ("churn", "faultchurn") else "45", f]))
             for k in spec["sexh"][:4]:
                 runs.append((f"sexh{k}/3", ["sexh", str(k), "3"]))
+            if prop == "C04":
+                # kinds 1 and 2 with component types that have no destructor (plain data)
+                runs.append(("sgen-churn-pod", ["sgen", str(seed * 1000 + 88), "350", "120", "churn"], {"VH_POD": "1"}))
+                runs.append(("sgen-any-pod", ["sgen", str(seed * 1000 + 89), "350", "45", "any"], {"VH_POD": "1"}))
+                runs.append(("sexh1/3-pod", ["sexh", "1", "3"], {"VH_POD": "1"}))
+                runs.append(("sexh2/3-pod", ["sexh", "2", "3"], {"VH_POD": "1"}))
             if prop == "C12":
                 # the same tracked histories with a ZERO-SIZED component type in kind 6 (values always 0)
                 runs.append(("sgen-tracked-zst6", ["sgen", str(seed * 1000 + 77), "400", "45", "tracked"], {"VH_ZST6": "1"}))
@@ -88,6 +94,14 @@ def plan(prop, tier, seed):
                 runs.append((f"sexh{k}/3", ["sexh", str(k), "3"]))
                 for s in range(4):
                     runs.append((f"sexh{k}/4/{s}", ["sexh", str(k), "4", str(s), "4"]))
+            if prop == "C04":
+                for i in range(4):
+                    runs.append((f"sgen-churn-pod{i}", ["sgen", str(seed * 1000 + 88 + 2 * i), "2500", "160", "churn"], {"VH_POD": "1"}))
+                    runs.append((f"sgen-any-pod{i}", ["sgen", str(seed * 1000 + 89 + 2 * i), "2500", "90", "any"], {"VH_POD": "1"}))
+                for k in (1, 2):
+                    runs.append((f"sexh{k}/3-pod", ["sexh", str(k), "3"], {"VH_POD": "1"}))
+                    for s in range(4):
+                        runs.append((f"sexh{k}/4/{s}-pod", ["sexh", str(k), "4", str(s), "4"], {"VH_POD": "1"}))
             if prop == "C12":
                 for i in range(4):
                     runs.append((f"sgen-tracked-zst6-{i}", ["sgen", str(seed * 1000 + 77 + i), "2500", "90", "tracked"], {"VH_ZST6": "1"}))
